@@ -831,7 +831,18 @@ def case_annot(ctx, inp):
         if why:
             ctx.fail("fused layer annotations loosen a constraint: " + why,
                      observed={"fused": _ann_canon(fused), "inputs": [_ann_canon(i) for i in ins]})
-        # non-fusable keys must never be merged across different values
+        # `optimization.annotations.fuse = False`: only layers with EQUAL annotations may be fused
+        if inp.get("fuse", True) is False and any(i != ins[0] for i in ins):
+            ctx.fail("layers with different annotations were fused although optimization.annotations.fuse is False",
+                     observed=[_ann_canon(i) for i in ins])
+        if any(k not in ("retries", "priority", "resources", "workers", "allow_other_workers") for i in ins for k in i):
+            ctx.branch("fused-group-with-non-fusable-key")
+        # non-fusable keys must never be merged across different values — a layer WITHOUT the key counts as different
+        FUS = ("retries", "priority", "resources", "workers", "allow_other_workers")
+        for k in {k for i in ins for k in i if k not in FUS}:
+            vals = {repr(i.get(k, "<absent>")) for i in ins}
+            if len(vals) > 1:
+                ctx.fail("layers that differ in a non-fusable annotation were fused", observed=[k, sorted(vals)])
         for i in ins:
             for k, v in i.items():
                 if k not in ("retries", "priority", "resources", "workers", "allow_other_workers") and fused.get(k) != v:
@@ -884,8 +895,8 @@ def gen_ann(rng, rich=True):
         a.append(["workers", ["set", sorted(rng.sample(range(5), rng.randint(0, 4)))]])
     if rng.random() < 0.4:
         a.append(["allow_other_workers", ["bool", rng.random() < 0.5]])
-    if rich and rng.random() < 0.2:
-        a.append([rng.choice(["foo", "bar"]), ["other", rng.randint(0, 2)]])
+    if rich and rng.random() < 0.6:
+        a.append([rng.choice(["foo", "foo", "bar"]), ["other", rng.randint(0, 1)]])
     rng.shuffle(a)
     return a
 
@@ -968,8 +979,12 @@ def generate(ctx):
         yield "hlgcull", gen_hlg(rng)
     for _ in range(ctx.n(40, 400)):
         n = rng.randint(1, 6)
-        steps = [{"op": rng.choice(["neg", "inc", "dbl", "self"]), "ann": gen_ann(rng, rich=rng.random() < 0.3)}
+        rich = rng.random() < 0.5
+        steps = [{"op": rng.choice(["neg", "inc", "dbl", "self"]), "ann": gen_ann(rng, rich=rich)}
                  for _ in range(rng.randint(2, 4))]
+        if rng.random() < 0.3:
+            # only a non-fusable key, equal or different between neighbours
+            steps = [{"op": s["op"], "ann": [["foo", ["other", rng.randint(0, 1)]]] if rng.random() < 0.8 else []} for s in steps]
         yield "annot", {"n": n, "chunks": [U.rand_comp(rng, n)], "steps": steps, "fuse": rng.random() < 0.85}
     # function level: the rewrite_blockwise calls of optimize_blockwise for sibling-contraction programs and general stacks
     for _ in range(ctx.n(100, 1200)):
